@@ -154,3 +154,25 @@ func (s *Stub) VerifyXuperSignature(keys []*ecdsa.PublicKey, signature, msg []by
 	}
 	return s.XVerify(ids, signature, msg), nil
 }
+
+// Ideal returns the stub used by the signature harnesses: key id k (0..n-1) has the public-key
+// string "K<k>", the address addrs[k], and its signature over m is the byte string "S<k>"+m,
+// which verifies under k for m and nothing else.
+func Ideal(addrs []string) *Stub {
+	st := &Stub{}
+	st.KeyString = func(id int) string { return string([]byte{'K', byte('0' + id)}) }
+	st.ParseKey = func(s string) (int, bool) {
+		for id := range addrs {
+			if s == st.KeyString(id) {
+				return id, true
+			}
+		}
+		return 0, false
+	}
+	st.Addr = func(id int) string { return addrs[id] }
+	st.Sign = func(id int, msg []byte) []byte { return append([]byte{'S', byte('0' + id)}, msg...) }
+	st.Verify = func(id int, sig, msg []byte) bool {
+		return len(sig) == 2+len(msg) && sig[0] == 'S' && sig[1] == byte('0'+id) && string(sig[2:]) == string(msg)
+	}
+	return st
+}
